@@ -28,14 +28,19 @@ class HarnessError(Exception):
 class Case:
     """one request line; `cls` labels the generator class for the histogram; `expect` may pin the
     reply demanded by the property when it differs from 'model == impl' (e.g. relation checks)."""
-    __slots__ = ("op", "args", "cls", "note")
+    __slots__ = ("op", "args", "cls", "note", "oracle")
 
     def __init__(self, op, args, cls="gen", note=None):
         self.op, self.args, self.cls, self.note = op, [str(a) for a in args], cls, note
+        self.oracle = []      # answered third-party oracle queries "fn:hexin=hexout" (model side only)
 
     @property
     def line(self):
         return " ".join([self.op] + self.args)
+
+    @property
+    def model_line(self):
+        return self.line + ((" | " + " ".join(self.oracle)) if self.oracle else "")
 
 
 def sh(cmd, cwd=None, timeout=3600, env=None):
@@ -251,11 +256,16 @@ def main(argv=None):
 def replay(mod, prop, path):
     rep = json.load(open(path if os.path.isabs(path) else os.path.join(VERIF, path)))
     lines = rep.get("request_lines", [])
-    cases = [Case(l.split(" ")[0], l.split(" ")[1:], "replay") for l in lines]
+    cases = []
+    for l in lines:
+        req, _, ora = l.partition(" | ")
+        c = Case(req.split(" ")[0], req.split(" ")[1:], "replay")
+        c.oracle = [x for x in ora.split(" ") if x]
+        cases.append(c)
     if hasattr(mod, "pre_build"):
         mod.pre_build()
     ok, out = lake_build(["bipdrv"])
-    model = run_driver([c.line for c in cases]) if ok else ["<driver build failed>"] * len(cases)
+    model = run_driver([c.model_line for c in cases]) if ok else ["<driver build failed>"] * len(cases)
     bad = 0
     for c, m in zip(cases, model):
         i = run_impl(mod, c)
@@ -326,12 +336,29 @@ def check(mod, prop, tier, seed, no_build=False):
     cases += list(gen)
     if hasattr(mod, "prepare"):
         cases = mod.prepare(cases)       # e.g. attach oracle tables
-    model_out = run_driver([c.line for c in cases])
+    model_out = run_driver([c.model_line for c in cases])
+    # third-party oracle: answer the queries the model reports (computed by calling the third-party
+    # library directly, never through bip_utils) and re-run those requests until none is pending
+    oracles = getattr(mod, "ORACLES", None)
+    for _round in range(64):
+        pending = [i for i, m in enumerate(model_out) if m.startswith("err OracleMiss ")]
+        if not pending or oracles is None:
+            break
+        for i in pending:
+            q = model_out[i].split(" ")[2]
+            fn, inp = q.split(":")
+            if fn not in oracles:
+                raise HarnessError("no oracle for query %s (request %s)" % (q, cases[i].line))
+            from harness.canon import hx as _hx, unhx as _unhx
+            cases[i].oracle.append("%s:%s=%s" % (fn, inp, _hx(oracles[fn](_unhx(inp)))))
+        redo = run_driver([cases[i].model_line for i in pending])
+        for i, m in zip(pending, redo):
+            model_out[i] = m
     diffs = []
     for c, m in zip(cases, model_out):
-        if m in ("bad-op", "bad-args"):
+        if m in ("bad-op", "bad-args", "bad-oracle"):
             raise HarnessError("driver rejected request %r: %s" % (c.line, m))
-        if m == "err OracleMiss":
+        if m.startswith("err OracleMiss") and not getattr(mod, "ORACLE_MISS_OK", False):
             raise HarnessError("oracle miss on " + c.line)
         i = run_impl(mod, c)
         rpt.count(c, i, m)
@@ -369,7 +396,7 @@ def check(mod, prop, tier, seed, no_build=False):
                 continue
             if hasattr(mod, "shrink"):
                 c, i, m = mod.shrink(c, i, m, lambda cc: (run_impl(mod, cc), run_driver([cc.line])[0]))
-            rep = {"property": prop, "tier": tier, "seed": seed, "entry_point": c.op, "request_lines": [c.line],
+            rep = {"property": prop, "tier": tier, "seed": seed, "entry_point": c.op, "request_lines": [c.model_line],
                    "class": c.cls, "impl_output": i, "model_output": m,
                    "relation": "implementation output differs from the model output the theorems are about",
                    "theorems": aud["theorems"][:40], "no_failing_input": False}
